@@ -1268,6 +1268,8 @@ func (r *Runner) checkScenarioOn(i int, s *Step, t *Transcript, name string) {
 		prop = "C49"
 	case strings.HasPrefix(s.Name, "scn:copy-"):
 		prop = "C05"
+	case strings.HasPrefix(s.Name, "scn:same-named-types"):
+		prop = "C22"
 	case strings.HasPrefix(s.Name, "scn:resource-juggling"), strings.HasPrefix(s.Name, "scn:foreign-"), strings.HasPrefix(s.Name, "scn:contract-resource"):
 		prop = "C02"
 	}
